@@ -13,14 +13,6 @@ with the same bits, spans and symbols.
 -/
 namespace Casm
 
-def Opts.staticOff (opts : Opts) : Opts := { opts with optStatic := false }
-
-/-- the two front ends agree: same errors, or the same static part, the same nodes, the same values,
-    the unoptimised one having the marks `markedByBoth` only -/
-def FrontRel (opts : Opts) (fs : SrcFiles) (roots : List (List Char)) : Prop :=
-  frontEnd opts.staticOff fs roots =
-    (frontEnd opts fs roots).map fun x => (x.1.withStatic false, x.2.1, x.2.2.unfS (markedByBoth x.1 x.2.2))
-
 theorem outputItems_us (H : Nat → Bool) (st : Static) (d : Defs) (nodes : List AstNode) :
     outputItems (st.withStatic false) (d.unfS H) nodes = outputItems st d nodes := by
   unfold outputItems
